@@ -713,9 +713,11 @@ class Interp:
                     if fi.name in self.intercept:
                         return self.intercept[fi.name](selfobj, args, kwargs)
                     return self.call_method(fi, selfobj, args, kwargs)
-                if kind == "cmeth" and isinstance(tgt[1], (dict, defaultdict)) and tgt[2] in ("items", "keys", "values", "clear", "get"):
+                if kind == "cmeth" and isinstance(tgt[1], (dict, defaultdict)) and tgt[2] in ("items", "keys", "values", "clear", "get", "setdefault", "pop"):
+                    if tgt[2] == "pop" and len(args) == 1 and args[0] not in tgt[1]:
+                        raise ModelRaise(f"KeyError({args[0]!r})")
                     return {"items": lambda: list(tgt[1].items()), "keys": lambda: list(tgt[1].keys()), "values": lambda: list(tgt[1].values()),
-                            "clear": tgt[1].clear, "get": lambda *a: tgt[1].get(*a)}[tgt[2]](*args)
+                            "clear": tgt[1].clear, "get": lambda *a: tgt[1].get(*a), "setdefault": lambda *a: tgt[1].setdefault(*a), "pop": lambda *a: tgt[1].pop(*a)}[tgt[2]](*args)
                 if kind == "cmeth":
                     cont, meth = tgt[1], tgt[2]
                     if isinstance(cont, set) and meth in SET_METHODS:
